@@ -330,7 +330,8 @@ PROPS["C08"]["files"] = PROPS["C08"]["files"] + ["src/crypto/init.rs"]
 PROPS["C08"]["assumptions"] = PROPS["C08"]["assumptions"] + [PROPS["C06"]["assumptions"][-1]]
 PROPS["C16"]["obligations"] += [K("c16_peer_entry_limit_and_flags", "one peer-list entry of NodeInfo (limit-and-flags statements of encode_peer_list_part, extracted): for 0..=10 "
                                   "addresses per family at most seven remain and the flags byte carries exactly the two counts and the identity bit")]
-PROPS["C16"]["functions"] += ["NodeInfo::encode_peer_list_part (limit-and-flags statements, extracted)"]
+PROPS["C16"]["obligations"] += [K("c16_own_addrs_limit_and_flags", "the node's own address list (limit-and-flags statements of encode_addrs_part, extracted): same limit of seven per family, flags byte = the two counts")]
+PROPS["C16"]["functions"] += ["NodeInfo::encode_peer_list_part (limit-and-flags statements, extracted)", "NodeInfo::encode_addrs_part (limit-and-flags statements, extracted)"]
 PROPS["C16"]["files"] += ["src/crypto/init.rs"]
 PROPS["C16"]["functions"] += ["InitMsg::write_to (cipher-list arm, extracted)", "InitMsg::read_from (cipher-list arm and signature read, extracted)"]
 PROPS["C16"]["bounds"] += "; handshake messages: only the cipher-list part (0..=3 entries, any order, any f32 bits; arbitrary bytes for totality) and the signature read (any length byte)"
